@@ -54,11 +54,11 @@ def generate(seed, tier):
             cases.append({'text': t, 'async': 'plain', 'max_batch': None})
         if len(cases) % 3 == 1:
             cases.append({'text': t, 'async': 'wrapped', 'max_batch': None})
-    return cases
+    return dispenv.with_variants(cases, 9)
 
 
 def cfg_of(case):
-    return dict(corpus.STD_CFG, max_batch=case['max_batch'])
+    return dict(corpus.STD_CFG, max_batch=case['max_batch'], **(case.get('variant') or {}))
 
 
 def observe(case):
@@ -71,7 +71,7 @@ def encode(case, obs):
 
 
 def case_key(case):
-    return json.dumps([case['text'][:2000], len(case['text']), case['async'], case['max_batch']])
+    return json.dumps([case['text'][:2000], len(case['text']), case['async'], case['max_batch'], case.get('variant')])
 
 
 def distribution(cases, obs):
